@@ -236,6 +236,16 @@ def bound_of(n, params):
     return 'BOther "%s"' % text(n).replace('"', "'")[:120]
 
 
+def pair_of(n):
+    """the two element expressions of a brace-initialised std::array<.,2> value, or None"""
+    a = uw(n)
+    while a.get("kind") == "InitListExpr" and len(kids(a)) == 1:
+        a = uw(kids(a)[0])
+    if a.get("kind") == "InitListExpr" and len(kids(a)) == 2:
+        return kids(a)[0], kids(a)[1]
+    return None
+
+
 def calcmod(d):
     params = [c["name"] for c in kids(d) if c.get("kind") == "ParmVarDecl"]
     body = [c for c in kids(d) if c.get("kind") == "CompoundStmt"][0]
@@ -283,23 +293,30 @@ def calcmod(d):
         raise TranslateError("for: increment not understood: %s" % text(inc))
     sym = Sym(lv)
     entries = []
+    pairs = {}
     for s in (kids(fbody) if fbody.get("kind") == "CompoundStmt" else [fbody]):
         if s.get("kind") == "DeclStmt":
             for v in kids(s):
                 if v.get("kind") != "VarDecl" or not kids(v):
                     raise TranslateError("__calcModulation: declaration without initialiser in the loop")
-                sym.env[v["name"]] = sym.ir(kids(v)[0])
+                pr = pair_of(kids(v)[0])
+                if pr is not None:
+                    pairs[v["name"]] = (sym.ir(pr[0]), sym.ir(pr[1]))      # a local (phase, amplitude) pair
+                else:
+                    sym.env[v["name"]] = sym.ir(kids(v)[0])
             continue
         mc = method_call(s)
         if mc is None or mc[1] not in ("emplace", "push") or uw(mc[0]).get("kind") != "DeclRefExpr" or \
                 uw(mc[0])["referencedDecl"].get("name") != qname or len(mc[2]) != 1:
             raise TranslateError("__calcModulation: loop statement not understood: %s" % text(s)[:160])
-        a = uw(mc[2][0])
-        while a.get("kind") == "InitListExpr" and len(kids(a)) == 1:
-            a = uw(kids(a)[0])
-        if a.get("kind") != "InitListExpr" or len(kids(a)) != 2:
+        a = uw(std_move_arg(mc[2][0]) or mc[2][0])
+        if a.get("kind") == "DeclRefExpr" and a["referencedDecl"].get("name") in pairs:
+            entries.append(pairs[a["referencedDecl"]["name"]])
+            continue
+        pr = pair_of(mc[2][0])
+        if pr is None:
             raise TranslateError("__calcModulation: the emplaced value is not a pair {{phase, amplitude}}")
-        entries.append((sym.ir(kids(a)[0]), sym.ir(kids(a)[1])))
+        entries.append((sym.ir(pr[0]), sym.ir(pr[1])))
     if len(entries) != 1:
         raise TranslateError("__calcModulation: %d emplace/push statements per iteration (exactly one expected)" % len(entries))
     if sym.draws != 2:
